@@ -14,7 +14,7 @@ from typing import Any, Dict, List, Optional, Tuple
 
 from . import refsem
 from .fdai import Frame, Interp
-from .fdvalues import ClassVal, EnumVal, FuncVal, Obj, Opaque, PyRaise, Ready
+from .fdvalues import ClassVal, EnumVal, FuncVal, Obj, Opaque, PyRaise, Ready, StrT
 from .report import Unsupported
 from .srcmodel import SrcModel
 from .tables import CFV
@@ -275,6 +275,59 @@ def _loose_ahb_split(text: str):
     return parts or None
 
 
+def lark_parse(it: Interp, func: Opaque, args, kwargs):
+    """Model of `<module-level Lark object>.parse(text)` (lemma L2): the reference parser of refsem decides acceptance;
+    rejection raises UnexpectedCharacters / UnexpectedEOF, a non-str argument raises TypeError. The repository's own
+    wrapper code around it (try/except, logging, lru_cache, tree_copy) is interpreted, not summarised."""
+    label = func.label
+    text = args[0] if args else kwargs.get("text")
+    if not isinstance(text, str):
+        if isinstance(text, (StrT, Opaque)):
+            raise Unsupported(f"parse of non-literal string {text!r}")
+        raise PyRaise(Obj("builtins.TypeError", {"args": ("expected str",)}))
+
+    def reject(err):
+        if getattr(err, "kind", "char") == "eof":
+            raise PyRaise(Obj("lark.exceptions.UnexpectedEOF", {"args": (str(err),), "expected": [], "state": None}))
+        raise PyRaise(Obj("lark.exceptions.UnexpectedCharacters", {"args": (str(err),), "char": "?", "pos_in_stream": 0, "line": 1, "column": 1, "allowed": []}))
+
+    if label.startswith("larkparser:expression"):
+        try:
+            return cond_tree(refsem.parse_condition(text))
+        except refsem.RefSyntaxError as err:
+            reject(err)
+    if label.startswith("larkparser:ahb_expression"):
+        try:
+            parts = refsem.parse_ahb(text)
+        except refsem.RefSyntaxError as err:
+            parts = _loose_ahb_split(text)
+            if parts is None:
+                reject(refsem.RefSyntaxError(str(err), "eof" if text == "" else "char"))
+        return ahb_tree(parts)
+    raise Unsupported(f"unknown Lark parser object {label}")
+
+
+def install_lark_model(it: Interp) -> None:
+    def make_parser(_it, args, kwargs):
+        start = kwargs.get("start", "start")
+        key = ("larkparser", start)
+        if key not in it.attr_memo:
+            it.attr_memo[key] = Opaque(f"larkparser:{start}", kind="lark.Lark", truthy=True, not_none=True)
+        return it.attr_memo[key]
+
+    it.ext_handlers["lark.Lark"] = make_parser
+    prev = it.ext_handlers.get("opaque-call")
+
+    def opaque_call(_it, func, args, kwargs):
+        if func.label.startswith("larkparser:") and func.label.endswith(".parse"):
+            return lark_parse(it, func, args, kwargs)
+        if prev is not None:
+            return prev(_it, func, args, kwargs)
+        raise Unsupported(f"call of opaque value {func.label}")
+
+    it.ext_handlers["opaque-call"] = opaque_call
+
+
 class Harness:
     """One abstract evaluation environment (one assignment)."""
 
@@ -282,9 +335,9 @@ class Harness:
                  fc: Optional[Dict[str, Any]] = None, hints: Optional[Dict[str, Optional[str]]] = None,
                  packages: Optional[Dict[str, Optional[str]]] = None, async_keys: Tuple[str, ...] = (),
                  gather_order=None, extra_summaries=None):
-        summaries = {PARSE_COND: summary_parse_condition, PARSE_AHB: summary_parse_ahb}
-        summaries.update(extra_summaries or {})
+        summaries = dict(extra_summaries or {})
         self.it = Interp(model, chooser, summaries=summaries, ext_handlers={"inject.instance": self._inject_instance})
+        install_lark_model(self.it)
         if gather_order is not None:
             self.it.gather_order = gather_order
         self.model = model
